@@ -113,7 +113,30 @@ def acyclicity_establishers(ctx, L):
             raises = [r for r in g.walk() if isinstance(r, ast.Raise) and r.exc is not None and 'ModelError' in unparse(r.exc)]
             walks_deps = '.dependencies()' in gs
             membership = re.search(r'if \w+ in (on_path|visiting|seen|path|visited)\b', gs) is not None
-            if raises and walks_deps and membership:
+            # the graph must hold the dependencies of *every* definition: two definitions may share a name (isar input
+            # is not checked for redefinitions), so a store keyed by the name has to accumulate, not overwrite
+            overwrites, accumulates = [], []
+            for x in g.walk():
+                def name_key(k):
+                    return isinstance(k, ast.Attribute) and k.attr == 'name'
+                if isinstance(x, ast.Call) and isinstance(x.func, ast.Attribute) and x.func.attr == 'setdefault' and x.args and name_key(x.args[0]):
+                    accumulates.append(x)
+                elif isinstance(x, ast.AugAssign) and isinstance(x.target, ast.Subscript) and name_key(x.target.slice):
+                    accumulates.append(x)
+                elif isinstance(x, ast.Assign) and any(isinstance(t, ast.Subscript) and name_key(t.slice) for t in x.targets):
+                    overwrites.append(x)
+                elif isinstance(x, ast.DictComp) and name_key(x.key):
+                    overwrites.append(x)
+                elif isinstance(x, ast.Call) and unparse(x.func) == 'dict' and x.args and isinstance(x.args[0], (ast.GeneratorExp, ast.ListComp)) \
+                        and isinstance(x.args[0].elt, ast.Tuple) and x.args[0].elt.elts and name_key(x.args[0].elt.elts[0]):
+                    overwrites.append(x)
+            complete = bool(accumulates) and not overwrites
+            L.check(complete, 'F12.establisher', 'model|cycle-check-graph-complete', g.site(overwrites[0] if overwrites else None),
+                    'the dependency graph of the cycle check is keyed by definition name and must accumulate the dependencies of '
+                    'same-named definitions (setdefault(...).update / |=): an overwriting store drops the edges of the earlier '
+                    'definition, a cycle through it goes undetected and the rotation loop of topological_sort never ends',
+                    ws(unparse(overwrites[0]))[:200] if overwrites else gs[:200])
+            if raises and walks_deps and membership and complete:
                 model_guard = True
     return {'prophy': declared_before_use and redefinition_fails, 'isar': model_guard, 'patch (rename)': model_guard}
 
